@@ -79,10 +79,19 @@ def run_cached(c):
         listener = L()              # kept alive by this frame
         st.add_listener(listener)
         out, fresh = [], []
+        shared = None
         for o in c['ops']:
             if o[0] == 'ask':
                 counter.finds = 0
                 inq = specs.mk_inquiry(c['inquiries'][o[1]])           # a fresh, content-equal object
+                if c.get('reuse'):
+                    # one long-lived Inquiry object whose fields are overwritten before every question
+                    if shared is None:
+                        shared = inq
+                    else:
+                        shared.resource, shared.action = inq.resource, inq.action
+                        shared.subject, shared.context = inq.subject, inq.context
+                    inq = shared
                 a = guard.is_allowed(inq)
                 hit = counter.finds == 0
                 if c.get('custom'):
@@ -171,7 +180,10 @@ class CachedGuardStream(Stream):
             custom = (i % 5 == 4)
             yield {'checker': ck, 'backend': backend, 'rxtable': sc['rxtable'], 'inquiries': inqs, 'classes': classes,
                    'cap': None if custom else rng.choice(CAPS), 'custom': custom, 'ops': ops,
-                   'drop_handle': rng.random() < 0.5}
+                   'drop_handle': rng.random() < 0.5,
+                   # (not with the harness' dict back-end: a dict finds a mutated key object by identity when the
+                   #  probe happens to land on its slot - that is the user back-end's affair, not vakt's)
+                   'reuse': (not custom) and rng.random() < 0.35}
 
     def emit(self, c):
         qs = []
@@ -254,7 +266,7 @@ ASSUME = ['inquiries of the pool are hashable through their canonical content (C
 
 def main(argv):
     return run_check('C11', [CachedGuardStream()], argv, trusted_base=TRUSTED, assumptions=ASSUME,
-                     translated=('observable', 'guard'))
+                     translated=('observable', 'guard', 'pin_inquiry'))
 
 
 if __name__ == '__main__':
